@@ -114,7 +114,7 @@ inductive Err where
   | InvalidBucketName | InvalidArgument | BucketAlreadyExists | NoSuchBucket | NoSuchKey | InternalError
   | InvalidRange | IncompleteBody | UnexpectedContent | BadDigest | InvalidRequest | AccessDenied
   | InvalidPart | EntityTooSmall | NotImplemented | InvalidStorageClass
-  | NoSuchUpload | BucketNotEmpty | MalformedXML | InvalidPartOrder
+  | NoSuchUpload | BucketNotEmpty | MalformedXML | InvalidPartOrder | KeyTooLongError
   deriving DecidableEq, Repr
 
 def Err.name : Err → String
@@ -127,6 +127,7 @@ def Err.name : Err → String
   | .NotImplemented => "NotImplemented" | .InvalidStorageClass => "InvalidStorageClass"
   | .NoSuchUpload => "NoSuchUpload" | .BucketNotEmpty => "BucketNotEmpty"
   | .MalformedXML => "MalformedXML" | .InvalidPartOrder => "InvalidPartOrder"
+  | .KeyTooLongError => "KeyTooLongError"
 
 /-- identity of the requester: the access key of `req.credentials`, `none` = anonymous -/
 abbrev Who := Option Bytes
